@@ -397,7 +397,6 @@ func (c *Client) Connect(conn net.Conn) error {
 	// so we always have a non-nil pointer.
 	if c.logger == nil {
 		c.setStdLogger(conn.RemoteAddr().String())
-		defer func() { c.logger = nil }()
 	}
 
 	if err := c.checkInitialMessage(); err != nil {
